@@ -551,3 +551,35 @@ def partial_eval(folder: Folder, func_node: ast.FunctionDef, mod, cls, env: Dict
         return None
     r = run(func_node.body)
     return r if r is not None else ("return", None)
+
+
+class RuleProxy:
+    """Record the results of another property's rule module under one rule id of this property (used where a property's
+    statement contains another property's clause, e.g. C03 contains the codec of C04)."""
+
+    def __init__(self, chk, rule: str):
+        self._chk, self._rule = chk, rule
+
+    def __getattr__(self, name):
+        return getattr(self._chk, name)
+
+    def _r(self, rule):
+        return f"{self._rule}/{rule}"
+
+    def ok(self, rule, *a, **k):
+        return self._chk.ok(self._r(rule), *a, **k)
+
+    def bad(self, rule, *a, **k):
+        return self._chk.bad(self._r(rule), *a, **k)
+
+    def unk(self, rule, *a, **k):
+        return self._chk.unk(self._r(rule), *a, **k)
+
+    def check(self, cond, rule, *a, **k):
+        return self._chk.check(cond, self._r(rule), *a, **k)
+
+    def floor(self, rule, *a, **k):
+        return self._chk.floor(self._r(rule), *a, **k)
+
+    def fixture(self, rule, *a, **k):
+        return self._chk.fixture(self._r(rule), *a, **k)
